@@ -125,6 +125,11 @@ class QuicConnectionProtocol(asyncio.DatagramProtocol):
         for data, addr in self._quic.datagrams_to_send(now=self._loop.time()):
             self._transport.sendto(data, addr)
 
+        # Process the events raised while building the datagrams: connection
+        # IDs issued in NEW_CONNECTION_ID frames must be routed to this
+        # protocol before the peer starts using them.
+        self._process_events()
+
         # re-arm timer
         timer_at = self._quic.get_timer()
         if self._timer is not None and self._timer_at != timer_at:
